@@ -580,41 +580,65 @@ func runC15(c *Ctx, r *Rec) {
 		r.check(bad == "", "D2-fresh", construct, c.pos(fd.Pos()), "result created in the call, no operand storage inside", bad)
 		// D3 collator: every set created in the function is created with an operand's collator
 		badC := ""
-		params := paramObjs(info, fd)
-		ast.Inspect(fd.Body, func(x ast.Node) bool {
-			if rx, mname, call, ok := methodCall(x); ok && isObj(info, rx, recvObj(info, fd)) {
-				switch mname {
-				case "Make", "MakeFromArray", "MakeFromSequence":
-					badC = "a result set is created with " + mname + " (the default collator) instead of the operands' collator: under a custom collator the result orders and de-duplicates differently"
-				case "MakeWithCollator":
-					okArg, unknownArg := false, false
-					src := resolveInit(info, fd, call.Args[0])
-					if crx, cname, _, ok := methodCall(src); ok && cname == "GetCollator" {
-						for _, p := range params {
-							if isObj(info, crx, p) {
-								okArg = true
+		// the function itself and the unexported class methods it hands its operands to
+		scopeFds := []*ast.FuncDecl{fd}
+		for i := 0; i < len(scopeFds) && i < 6; i++ {
+			cur := scopeFds[i]
+			ast.Inspect(cur.Body, func(x ast.Node) bool {
+				if rx, mname, _, ok := methodCall(x); ok && isObj(info, rx, recvObj(info, cur)) && !ast.IsExported(mname) {
+					if hd := c.methodsOf(cls)[mname]; hd != nil && hd.Body != nil {
+						dup := false
+						for _, s := range scopeFds {
+							if s == hd {
+								dup = true
 							}
 						}
-						// the collator of a set computed here from the operands (a sibling's result) is the operands' collator too
-						if !okArg {
-							if o := identObj(info, crx); o != nil && ifaceMethodNames(o.Type())["GetCollator"] {
-								okArg = true
-							}
+						if !dup {
+							scopeFds = append(scopeFds, hd)
 						}
-					} else if _, cname, _, ok := methodCall(src); !ok || cname != "Make" {
-						unknownArg = true // neither an operand's collator nor a freshly made default one
-					}
-					if unknownArg && !okArg {
-						if badC == "" {
-							badC = "skip: the collator given to MakeWithCollator is not recognised"
-						}
-					} else if !okArg {
-						badC = "MakeWithCollator is not given an operand's GetCollator()"
 					}
 				}
-			}
-			return true
-		})
+				return true
+			})
+		}
+		for _, sfd := range scopeFds {
+			fd := sfd
+			params := paramObjs(info, fd)
+			ast.Inspect(fd.Body, func(x ast.Node) bool {
+				if rx, mname, call, ok := methodCall(x); ok && isObj(info, rx, recvObj(info, fd)) {
+					switch mname {
+					case "Make", "MakeFromArray", "MakeFromSequence":
+						badC = "a result set is created with " + mname + " (the default collator) instead of the operands' collator: under a custom collator the result orders and de-duplicates differently"
+					case "MakeWithCollator":
+						okArg, unknownArg := false, false
+						src := resolveInit(info, fd, call.Args[0])
+						if crx, cname, _, ok := methodCall(src); ok && cname == "GetCollator" {
+							for _, p := range params {
+								if isObj(info, crx, p) {
+									okArg = true
+								}
+							}
+							// the collator of a set computed here from the operands (a sibling's result) is the operands' collator too
+							if !okArg {
+								if o := identObj(info, crx); o != nil && ifaceMethodNames(o.Type())["GetCollator"] {
+									okArg = true
+								}
+							}
+						} else if _, cname, _, ok := methodCall(src); !ok || cname != "Make" {
+							unknownArg = true // neither an operand's collator nor a freshly made default one
+						}
+						if unknownArg && !okArg {
+							if badC == "" {
+								badC = "skip: the collator given to MakeWithCollator is not recognised"
+							}
+						} else if !okArg {
+							badC = "MakeWithCollator is not given an operand's GetCollator()"
+						}
+					}
+				}
+				return true
+			})
+		}
 		r.verdict("D3-collator", construct, c.pos(fd.Pos()), "every set built here uses an operand's collator (or comes from a sibling that does)", badC)
 	}
 	// the result's ordered storage is only changed through the set's own searched insert/remove
@@ -925,6 +949,77 @@ func runC16(c *Ctx, r *Rec) {
 			r.ok(ent.rule, construct, c.pos(fd.Pos()), "every returned collection that starts as a copy starts as a copy of the first operand")
 		default:
 			r.skip(ent.rule, construct, c.pos(fd.Pos()), "no returned collection is created as a copy of an operand")
+		}
+	}
+	// keys are told apart by identity (==, a Go map), as the catalog itself does; a search of a
+	// list or set of keys compares structurally (pointers are followed) and finds look-alikes.
+	// And folding the second operand into the result never removes from it: a key that is
+	// removed and set again moves to the end of the order.
+	for _, ent := range []struct {
+		fd   *ast.FuncDecl
+		rule string
+	}{{cms["Extract"], "D3-keys-by-identity"}, {cms["Merge"], "D2-no-removal-from-result"}} {
+		fd := ent.fd
+		if fd == nil || fd.Body == nil {
+			continue
+		}
+		scope := []*ast.FuncDecl{fd}
+		for i := 0; i < len(scope) && i < 6; i++ {
+			ast.Inspect(scope[i].Body, func(x ast.Node) bool {
+				if call, ok := x.(*ast.CallExpr); ok {
+					if cf := calleeOf(info, call); cf != nil && !cf.Exported() {
+						if hd := c.declOf(cf.Origin()); hd != nil && hd.Body != nil && c.infoFor(hd) == info {
+							dup := false
+							for _, s := range scope {
+								if s == hd {
+									dup = true
+								}
+							}
+							if !dup {
+								scope = append(scope, hd)
+							}
+						}
+					}
+				}
+				return true
+			})
+		}
+		bad := ""
+		for _, sfd := range scope {
+			ast.Inspect(sfd.Body, func(x ast.Node) bool {
+				rx, mname, call, ok := methodCall(x)
+				if !ok || bad != "" {
+					return true
+				}
+				switch ent.rule {
+				case "D3-keys-by-identity":
+					if searchableNames[mname] && len(call.Args) == 1 {
+						if t := info.TypeOf(rx); t != nil && isCollectionLike(t) && !ifaceMethodNames(t)["GetKeys"] {
+							bad = fmt.Sprintf("%s asks %s.%s at %s whether a key is present: the search compares with the collator (structurally), the catalog identifies keys with ==; a requested key that only looks like a present one (another pointer to an equal value) is extracted with the zero value", sfd.Name.Name, exprStr(rx), mname, c.pos(call.Pos()))
+						}
+					}
+				case "D2-no-removal-from-result":
+					if (mname == "RemoveValue" || mname == "RemoveValues" || mname == "RemoveAll") && sfd == fd {
+						if t := info.TypeOf(rx); t != nil && ifaceMethodNames(t)["GetKeys"] {
+							isOperand := false
+							for _, p := range paramObjs(info, fd) {
+								if isObj(info, rx, p) {
+									isOperand = true
+								}
+							}
+							if !isOperand {
+								bad = fmt.Sprintf("Merge calls %s.%s at %s while folding: a key of the first operand that is removed and set again moves behind the keys that follow it, so the result is not first's keys in first's order followed by second's new keys", exprStr(rx), mname, c.pos(call.Pos()))
+							}
+						}
+					}
+				}
+				return true
+			})
+		}
+		if bad != "" {
+			r.fail(ent.rule, c.fdName(fd), c.pos(fd.Pos()), bad)
+		} else {
+			r.ok(ent.rule, c.fdName(fd), c.pos(fd.Pos()), map[string]string{"D3-keys-by-identity": "no structural search decides the presence of a key", "D2-no-removal-from-result": "nothing is removed from the catalog under construction"}[ent.rule])
 		}
 	}
 	// a Go map from keys to positions in which "absent" is read off the zero value must never
